@@ -5,8 +5,8 @@ from common import Fr, enc_f, dec_f, close, rng
 import rggen
 
 LEAN_MODULE = 'PGM.Properties.C18'
-LEAN_EXTRA = ['PGM.Properties.C18G']
-TRANSLATORS = ('py2local',)    # local_inference.py (mirror_descent_auto, mirror_descent, estimate, _marginal_loss, _setup) -> Generated/LocalG.lean, proved equal to Model/Local.lean + LocalPy.lean
+LEAN_EXTRA = ['PGM.Properties.C18G', 'PGM.Properties.C18E']
+TRANSLATORS = ('py2local', 'py2fg', 'py2rg')    # local_inference.py (mirror_descent_auto, mirror_descent, estimate, _marginal_loss, _setup) -> Generated/LocalG.lean, proved equal to Model/Local.lean + LocalPy.lean
 TRUSTED = ['Lean 4.33 kernel', 'axioms: propext, Classical.choice, Quot.sound',
            'the marginal oracles called inside LocalInference are the ones modelled in PGM/Model/RegionGraph.lean / FactorGraph.lean; their calls '
            '(fresh potentials, persisted messages, one sweep per call) are recorded during estimation and replayed through the Lean models',
